@@ -180,6 +180,18 @@ Theorem C07_audit_blank_line_stops_from_source :
 Proof. exact white_line_stops_from_source. Qed.
 Print Assumptions C07_audit_blank_line_stops_from_source.
 
+Theorem C07_audit_empty_line_skipped_from_source :
+  forall (event cerr login AS : Type) (type_of : str -> option BinNums.N) (mtype : amsg -> nat)
+         (coalesce : list amsg -> option event) (old : event -> bool)
+         (audit : AS -> event -> AS * option cerr) (rlogin : AS -> login -> AS * option cerr)
+         (csess clogins : AS -> AuditIR.tmv -> AS) (dur : BinNums.Z -> nat)
+         (mx tmo now : nat) (p : AuditProc.pst str amsg event cerr AS),
+  AuditIR.parser_step_gen str amsg event cerr login AS audit_is_empty (parse_opt type_of) a_seq mtype coalesce old
+                          audit rlogin csess clogins dur AuditProg.gen_audit (mx, tmo) now [] p =
+  Some (AuditProc.consume str amsg event cerr AS [] p).
+Proof. exact empty_line_skipped_from_source. Qed.
+Print Assumptions C07_audit_empty_line_skipped_from_source.
+
 (* concrete runs; a three-entry table stands in for the library's *)
 Definition c07_tbl (n : str) : option BinNums.N :=
   if seqb n (s2l "SYSCALL") then Some 1300%N else if seqb n (s2l "USER_CMD") then Some 1123%N
